@@ -236,6 +236,81 @@ def random_dag_strategy(tier):
     return s()
 
 
+# ----------------------------------------------------------------------------- one graph object, mutated between queries
+def history_strategy(tier):
+    @st.composite
+    def s(draw):
+        n = draw(st.integers(2, 7))
+        ops = []
+        for _ in range(draw(st.integers(2, 14))):
+            k = draw(st.sampled_from(["node", "edge", "edge", "edge", "remove", "check"]))
+            if k == "node":
+                ops.append(["node", draw(st.integers(0, n - 1))])
+            elif k == "edge":
+                i = draw(st.integers(0, n - 2))
+                ops.append(["edge", i, draw(st.integers(i + 1, n - 1))])
+            elif k == "remove":
+                ops.append(["remove", draw(st.integers(0, n - 1))])
+            else:
+                ops.append(["check"])
+        return {"n": n, "ops": ops}
+
+    return s()
+
+
+def exec_history(case):
+    """The same clauses, asked again after every mutation of one Graph object (nodes and edges are added incrementally by
+    the loaders; `remove` is applied to source nodes only, which is all its implementation supports)."""
+    res = CaseResult()
+    n = case["n"]
+    objs = [N(i) for i in range(n)]
+    g = Graph({})
+    present, edges = [], set()
+    mutations_after_query = 0
+    queried = False
+    for op in case["ops"]:
+        if op[0] == "node":
+            if op[1] not in present:
+                g.add_node(objs[op[1]])
+                present.append(op[1])
+        elif op[0] == "edge":
+            i, j = op[1], op[2]
+            if (i, j) in edges:
+                continue
+            if i not in present:
+                g.add_node(objs[i])
+                present.append(i)
+            g.add_child(objs[i], objs[j])
+            if j not in present:
+                present.append(j)
+            edges.add((i, j))
+        elif op[0] == "remove":
+            i = op[1]
+            if i not in present or any(b == i for _a, b in edges):
+                continue
+            g.remove(objs[i])
+            present.remove(i)
+            edges = {(a, b) for a, b in edges if a != i}
+        if not present:
+            continue
+        if op[0] != "check" and queried:
+            mutations_after_query += 1
+        # query everything on the current state
+        idx = {v: k for k, v in enumerate(present)}
+        cur_edges = sorted((idx[a], idx[b]) for a, b in edges)
+        k = len(present)
+        check_dag(case, g, [objs[v] for v in present], k, cur_edges, [[1] * k, [v + 1 for v in range(k)]], res.violations, label="graph_history")
+        queried = True
+        if res.violations:
+            res.violations[:] = res.violations[:3]
+            for v in res.violations:
+                v.sig = v.sig.replace("graph_history.", "graph.after_mutation.")
+            break
+    res.nontrivial = mutations_after_query >= 2
+    res.classes.append("removal" if any(o[0] == "remove" for o in case["ops"]) else "growth_only")
+    return res
+
+
 # ----------------------------------------------------------------------------- cycles
 def cyclic_strategy(tier):
     @st.composite
@@ -360,4 +435,5 @@ CHECKS = [
     Check("random_dags", case_timeout=60, timeout_is_violation=True, execute=exec_dag, strategy=random_dag_strategy, budget={"quick": 400, "thorough": 20000}),
     Check("cyclic", case_timeout=60, timeout_is_violation=True, execute=exec_cyclic, strategy=cyclic_strategy, budget={"quick": 500, "thorough": 20000}),
     Check("task_job_graphs", case_timeout=60, timeout_is_violation=True, execute=exec_tg, strategy=tg_strategy, budget={"quick": 600, "thorough": 30000}),
+    Check("graph_history", case_timeout=60, timeout_is_violation=True, execute=exec_history, strategy=history_strategy, budget={"quick": 1500, "thorough": 60000}),
 ]
